@@ -20,6 +20,10 @@ Decides:
  N  non-empty      every arm of Message::render that reaches ParseFailure::Stderr writes to the Doc.
  U  usage fallback the stdout/exit-0 usage fallback is guarded by an emptiness test taken before parsing, so a real
                    failure is never reclassified as success output.
+ W  width agreement the default Info.max_width (what run() prints with) equals console::MAX_WIDTH (what monochrome()/Display - i.e.
+                   everything reachable from run_inner - wraps at).
+ K  marker scope   the completion scanner sees an item only after the `--` test (an escaped word spelled like a marker is a positional);
+                   check_next(ordinary item) is false (table).
 Does not decide: byte equality of the text across the process boundary."""
 import re
 from core import *
@@ -30,7 +34,7 @@ from absint import Walker, UNKNOWN, pkey, show
 LEVEL = 'other'
 EXPLANATION = __doc__
 ASSUMPTIONS = ['std::io::_print writes to stdout and _eprint to stderr; process::exit(n) terminates with status n']
-FLOORS = {'X.exit-table': 3, 'S.stream-table': 6, 'R.run-flow': 10, 'A.argv0': 6, 'W.who': 12, 'N.non-empty': 17, 'U.usage-fallback': 1, 'K.completion-marker': 1, 'K.colour': 1}
+FLOORS = {'X.exit-table': 3, 'S.stream-table': 6, 'R.run-flow': 10, 'A.argv0': 6, 'W.who': 12, 'N.non-empty': 17, 'U.usage-fallback': 1, 'K.completion-marker': 1, 'K.colour': 1, 'W.width-agreement': 1}
 
 EXIT_TABLE = {
     'info::OptionParser::<T>::run': 'documented: print the failure and exit with its code',
